@@ -88,7 +88,9 @@ def paths(flow, start=None, stop_ids=None, follow_assert_fail=False, max_paths=M
                 elif isinstance(tg, (ast.Tuple, ast.List)):
                     for i, el in enumerate(tg.elts):
                         if isinstance(el, ast.Name):
-                            p.env[el.id] = ("idx", vt, ("const", repr(i)))
+                            from .flow import mk_idx
+
+                            p.env[el.id] = mk_idx(vt, ("const", repr(i)))
         if node.kind == "return":
             p.outcome = ("return", flow.term_env(node.ast, node, p.env) if node.ast is not None else ("const", "None"), node)
         elif node.kind == "raise":
